@@ -51,8 +51,19 @@ def main(src, dst):
         accept = [layout.Encoding.parse('image/png')[0]] if r.get('badaccept') else [json_enc]
         return layout.Request(json.dumps([row]).encode(), encoding, accept=accept)
 
-    async def one(r):
+    done = {}
+
+    async def one(k, r):
+        if r.get('after') is not None:
+            # a late arrival: submitted only once request `after` has been answered (others may still be in flight)
+            await done[r['after']].wait()
         await asyncio.sleep(r['arrival'] / 1000)
+        try:
+            return await answer(r)
+        finally:
+            done[k].set()
+
+    async def answer(r):
         try:
             response = await asyncio.wait_for(engine.apply(f"app{r['app']}", request(r)), 25)
             values = [v for row in json.loads(response.payload.data) for v in row.values()]
@@ -65,7 +76,9 @@ def main(src, dst):
             return ['err', type(err).__name__, str(err)[:160]]
 
     async def batch():
-        return await asyncio.gather(*[one(r) for r in doc['requests']])
+        for k in range(len(doc['requests'])):
+            done[k] = asyncio.Event()
+        return await asyncio.gather(*[one(k, r) for k, r in enumerate(doc['requests'])])
 
     try:
         answers = asyncio.run(batch())
